@@ -7,6 +7,7 @@ mod srcs;
 mod c01;
 mod c02;
 mod c03;
+mod c04;
 mod gen;
 mod util;
 
@@ -30,6 +31,7 @@ fn main() {
     "C01" => c01::run(&mut sink, &mut rng, thorough),
     "C02" => c02::run(&mut sink, &mut rng, thorough),
     "C03" => c03::run(&mut sink, &mut rng, thorough),
+    "C04" => c04::run(&mut sink, &mut rng, thorough),
     _ => {
       eprintln!("unknown property {}", prop);
       std::process::exit(2);
